@@ -12,6 +12,7 @@ import (
 	gsnappy "github.com/golang/snappy"
 
 	pbredis "github.com/samaritan-proxy/samaritan/pb/config/protocol/redis"
+	"github.com/samaritan-proxy/samaritan/pb/config/service"
 	"github.com/samaritan-proxy/samaritan/verifrt/sched"
 	"github.com/samaritan-proxy/samaritan/verifrt/sim/cluster"
 	"github.com/samaritan-proxy/samaritan/verifrt/sim/resp"
@@ -264,7 +265,7 @@ func c13filter(env sched.Env) *sched.Report {
 // ---------------------------------------------------------------------------
 // C13 (H): histories on the redis-stack: switch compression on/off, write, redirect, read back.
 //
-// alphabet  enable(T=8) | enable(T=64) | disable | SET/HSET/MSET/SETEX of a short, a compressible and an
+// alphabet  enable(T=8) | enable(T=64) | disable | remove the compression section | SET/HSET/MSET/SETEX of a short, a compressible and an
 //           incompressible value | GET/HGET/MGET | move the key's slot group to the other node (the next
 //           command is MOVED-redirected) | start migrating the group (keys not yet there are ASK-redirected)
 // bound     depth (quick 4, thorough 5)
@@ -279,7 +280,7 @@ type c13hcase struct {
 var c13hvals = [][]byte{[]byte("tiny"), c13pattern("run", 3000), c13pattern("rnd", 300), c13pattern("text", 90)}
 
 var c13opNames = []string{"enable(8)", "enable(64)", "disable", "SET short", "SET run3000", "SET rnd300", "HSET text90", "MSET run3000+short", "SETEX run3000",
-	"GET", "HGET", "MGET", "move-group", "start-migration", "GETSET short"}
+	"GET", "HGET", "MGET", "move-group", "start-migration", "GETSET short", "remove-compression-section"}
 
 func c13history(cs c13hcase) (sig, detail string) {
 	body := func() {
@@ -344,6 +345,13 @@ func c13history(cs c13hcase) (sig, detail string) {
 				continue
 			case 14:
 				args = []string{"GETSET", k1, string(c13hvals[0])}
+			case 15:
+				// compression switched off by deleting the whole section from the service configuration
+				if err := s.p.OnSvcConfigUpdate(vfSvcConfig(0, nil, 0)); err != nil {
+					sig, detail = "config-update-rejected", err.Error()
+					return
+				}
+				continue
 			}
 			var prev *resp.Value
 			if op == 14 {
@@ -389,6 +397,12 @@ func c13history(cs c13hcase) (sig, detail string) {
 				for j := 0; j < i; j++ {
 					if cs.Ops[j] == 12 || cs.Ops[j] == 13 {
 						redirected = "after a redirected write"
+					}
+				}
+				for j := 0; j < i; j++ {
+					if cs.Ops[j] == 15 {
+						redirected += ", compression section removed"
+						break
 					}
 				}
 				sig = fmt.Sprintf("read-back-differs / %s / %s", strings.Fields(name(i))[0], redirected)
@@ -515,7 +529,58 @@ func c13concBody() {
 	sched.SetOutcome("ok")
 }
 
+// C13 (S): the compression settings are switched (service-configuration update) while a write and its read
+// back are being processed. The configuration is swapped by a plain pointer write and read by the request
+// goroutines without synchronisation, so every statement reading it is a scheduling point of its own.
+//
+// alphabet  from enabled(T=8) to: disabled | no compression section at all | enabled(T=1024) | strategy change only
+// oracle    the write and the read get their replies, the value read back is the value written, what the node
+//           stores is the original or a valid shorter frame, nothing panics
+func c13switchConcurrentBody() {
+	cl := cluster.New(1, 0, 1)
+	s := vfStartStack(cl, vfSvcConfig(0, c13cps(true, 8), 0))
+	k := cl.KeyInGroup("k", 0, 0)
+	val := c13pattern("run", 300)
+	c := s.NewClient("c0")
+	c.Do("GET", k)
+	sched.WaitQuiescent()
+	to := sched.Choose(sched.ClsInput, 4, "new configuration")
+	ncfg := []*service.Config{
+		vfSvcConfig(0, c13cps(false, 8), 0),
+		vfSvcConfig(0, nil, 0),
+		vfSvcConfig(0, c13cps(true, 1024), 0),
+		vfSvcConfig(pbredis.ReadStrategy_BOTH, c13cps(true, 8), 0),
+	}[to]
+	name := []string{"disabled", "no compression section", "threshold 1024", "read strategy only"}[to]
+	sched.GoNamed("config-update", func() {
+		if err := s.p.OnSvcConfigUpdate(ncfg); err != nil {
+			sched.Fail("config-update-rejected", err.Error())
+		}
+	})
+	w, err := c.Do("SET", k, string(val))
+	if err != nil || w.Kind == '-' {
+		sched.Fail("write-failed / configuration switched during the request", fmt.Sprintf("switch to %s: SET replied %s %v", name, w, err))
+		return
+	}
+	r, err := c.Do("GET", k)
+	if err != nil || !resp.Equal(r, resp.Bulk(val)) {
+		sched.Fail("read-back-differs / configuration switched during the request", fmt.Sprintf("switch to %s: wrote %d bytes, read %s %v", name, len(val), r, err))
+	}
+	sched.WaitQuiescent()
+	if bad := c13stored(val, cl.Masters()[0].Store().Raw(k)); bad != "" {
+		sched.Fail(bad+" / configuration switched during the request", "switch to "+name)
+	}
+	sched.SetOutcome(name)
+}
+
 func init() {
+	sched.Register(&sched.Scenario{Name: "C13/switch-concurrent", Setup: func(tier string) (sched.Config, func()) {
+		b := sched.Bounds{P: 1, F: 1}
+		if tier == "thorough" {
+			b = sched.Bounds{P: 2, F: 2, Sel: 1}
+		}
+		return sched.Config{Bounds: b, Iterative: true, MaxSteps: 100000}, c13switchConcurrentBody
+	}})
 	sched.Register(&sched.Scenario{Name: "C13/concurrent", Setup: func(tier string) (sched.Config, func()) {
 		b := sched.Bounds{P: 1, F: 1, Sel: 0}
 		if tier == "thorough" {
